@@ -47,7 +47,8 @@ case "$cmd" in
         f="${2:?file}"
         if grep -q '"mode":"miri"' "$f" 2>/dev/null; then
             seed=$(grep -o '"miri_seed":[0-9]*' "$f" | grep -o '[0-9]*$')
-            "$ROOT/tools/miri_stage.sh" replay "$seed"
+            phase=$(grep -o '"miri_phase":"[a-z]*"' "$f" | grep -o '[a-z]*"$' | tr -d '"')
+            "$ROOT/tools/miri_stage.sh" replay "${phase:-tapes}" "$seed"
             exit $?
         fi
         build
